@@ -306,8 +306,15 @@ func (m *C14) OnState(gh explore.Ghost, _ *chain.Chain, _ sdk.Context, s *chain.
 		if s.BatchByKey(x.BatchKey) == nil {
 			bad("sell-order-batch-dangling", fmt.Sprint(x.Id))
 		}
-		if s.Market(x.MarketId) == nil {
+		if mk := s.Market(x.MarketId); mk == nil {
 			bad("sell-order-market-dangling", fmt.Sprint(x.Id))
+		} else if b := s.BatchByKey(x.BatchKey); b != nil {
+			// the reference resolves to the market OF THE ORDER'S CREDIT TYPE (order -> batch -> project -> class -> type)
+			if p := s.ProjectByKey(b.ProjectKey); p != nil {
+				if c := s.ClassByKey(p.ClassKey); c != nil && c.CreditTypeAbbrev != mk.CreditTypeAbbrev {
+					bad("sell-order-market-of-another-credit-type", fmt.Sprintf("order %d: batch %s is of type %s, market %d of type %s", x.Id, b.Denom, c.CreditTypeAbbrev, mk.Id, mk.CreditTypeAbbrev))
+				}
+			}
 		}
 		m.inc("sell_order_refs_checked")
 	}
